@@ -1,5 +1,6 @@
 import LoraVerif.Model.Device
 import LoraVerif.Props.C05
+import LoraVerif.Lemmas.MacWFStep
 /-!
 # C07 — frames that are not accepted change nothing
 
@@ -14,8 +15,14 @@ JoinAccept whose MIC does not verify.
 * `rejected_list_noop`: any number of them, in any receive opportunity;
 * `twin`: the MAC model is a function of its state, so a run with rejected frames inserted anywhere
   is indistinguishable from the run without them (2-safety by determinism + no-op).
+* HISTORIES: `history_rejected_invisible` — for every history (`Model/History.lean`) and every script
+  deleting frames the REFERENCE rejects where they are heard (Class C receptions, frames in RX1/RX2 of
+  uplinks and join attempts; rejection judged by `Spec/Freshness.lean` under the reference tracker of
+  `Lemmas/Ghost.lean`, never by the model), the thinned history reaches the same state and produces
+  the same outputs at every remaining event (`step_mask_eq`, `step_drop_eq`); conversely
+  (`history_rejected_insertable`) rejected frames can be inserted anywhere into a running history.
 -/
-open Model
+open Model Spec.Freshness
 
 namespace C07
 
@@ -125,8 +132,410 @@ example : Rejected m0 (.data forged) 59 := by
   unfold Rejected m0 macJoinAbp; simp [forged, C05.Accept]
 example : macHandleRx m0 (.data forged) 59 0 false = .ok (some { resp := .noUpdate, downlink := none }, m0) := by rfl
 
+
+/-! ## histories: deleting rejected frames anywhere is invisible -/
+
+/-- the REFERENCE rejects frame `f` heard in a Class A window of an uplink, `gh` being the reference
+tracker when the uplink is sent: anything that is not a data frame (garbage, a JoinAccept sent to a
+joined device), and a data frame that fits the window but whose MIC verifies under no fresh counter
+(forged, corrupted, other session, replayed, too far ahead).  Oversized frames are NOT rejected
+frames (they may end the procedure).  A device without a session opens no window at all. -/
+def RejWin (gh : Gh) (f : RxView × Int) (mp : Nat) : Prop :=
+  match gh with
+  | none => True
+  | some last =>
+    match f.1 with
+    | .data d => d.len ≤ mp + 5 ∧ accepts last d mp = none
+    | _ => True
+
+/-- … heard in a window of a join attempt: everything but a JoinAccept with a valid MIC -/
+def RejJoin (f : RxView × Int) : Prop :=
+  match f.1 with
+  | .joinAccept j => j.micOk = false
+  | _ => True
+
+/-- … heard between uplinks (Class C): everything the reference does not accept -/
+def RejRxc (gh : Gh) (v : RxView) (mp : Nat) : Prop :=
+  match gh with
+  | none => True
+  | some last =>
+    match v with
+    | .data d => accepts last d mp = none
+    | _ => True
+
+instance (gh : Gh) (f : RxView × Int) (mp : Nat) : Decidable (RejWin gh f mp) := by
+  unfold RejWin
+  cases gh with
+  | none => exact isTrue trivial
+  | some last => obtain ⟨v, snr⟩ := f; cases v <;> (simp only; infer_instance)
+
+instance (f : RxView × Int) : Decidable (RejJoin f) := by
+  unfold RejJoin
+  obtain ⟨v, snr⟩ := f; cases v <;> (simp only; infer_instance)
+
+instance (gh : Gh) (v : RxView) (mp : Nat) : Decidable (RejRxc gh v mp) := by
+  unfold RejRxc
+  cases gh with
+  | none => exact isTrue trivial
+  | some last => cases v <;> (simp only; infer_instance)
+
+/-- `P` holds of the frame heard, if any -/
+def heard (P : RxView × Int → Prop) : Option (RxView × Int) → Prop
+  | some f => P f
+  | none => True
+
+instance (P : RxView × Int → Prop) [DecidablePred P] (o : Option (RxView × Int)) : Decidable (heard P o) := by
+  cases o <;> (unfold heard; infer_instance)
+
+/-- what a deletion script does to one event: keep it, delete a Class C reception, or delete the
+frames heard in RX1 / RX2 of an uplink or join attempt -/
+inductive Del where
+  | keep
+  | drop
+  | mask (rx1 rx2 : Bool)
+  deriving DecidableEq, Repr
+
+def maskRx (b : Bool) (f : Option (RxView × Int)) : Option (RxView × Int) := if b then none else f
+
+def maskEv (b1 b2 : Bool) : Ev → Ev
+  | .uplink data fport conf fault rx1 rx2 mp1 mp2 => .uplink data fport conf fault (maskRx b1 rx1) (maskRx b2 rx2) mp1 mp2
+  | .joinOtaa fault rx1 rx2 mp1 mp2 => .joinOtaa fault (maskRx b1 rx1) (maskRx b2 rx2) mp1 mp2
+  | ev => ev
+
+def thinEvs : List Del → List Ev → List Ev
+  | .keep :: ds, ev :: evs => ev :: thinEvs ds evs
+  | .drop :: ds, _ :: evs => thinEvs ds evs
+  | .mask b1 b2 :: ds, ev :: evs => maskEv b1 b2 ev :: thinEvs ds evs
+  | _, evs => evs
+
+def thinOuts : List Del → List Out → List Out
+  | .keep :: ds, o :: os => o :: thinOuts ds os
+  | .drop :: ds, _ :: os => thinOuts ds os
+  | .mask _ _ :: ds, o :: os => o :: thinOuts ds os
+  | _, os => os
+
+/-- the deletion hits only frames the reference rejects at that point of the history -/
+def LegalDel (gh : Gh) : Del → Ev → Prop
+  | .keep, _ => True
+  | .drop, .rxc v _ mp => RejRxc gh v mp
+  | .drop, _ => False
+  | .mask b1 b2, .uplink _ _ _ _ rx1 rx2 mp1 mp2 =>
+    (b1 = true → heard (RejWin gh · mp1) rx1) ∧ (b2 = true → heard (RejWin gh · mp2) rx2)
+  | .mask b1 b2, .joinOtaa _ rx1 rx2 _ _ =>
+    (b1 = true → heard RejJoin rx1) ∧ (b2 = true → heard RejJoin rx2)
+  | .mask _ _, _ => True
+
+def Legal : Gh → List Del → List Ev → Prop
+  | gh, d :: ds, ev :: evs => LegalDel gh d ev ∧ Legal (ghStep gh ev) ds evs
+  | _, _, _ => True
+
+instance (gh : Gh) (d : Del) (ev : Ev) : Decidable (LegalDel gh d ev) := by
+  cases d <;> cases ev <;> (simp only [LegalDel]; infer_instance)
+
+instance : (gh : Gh) → (ds : List Del) → (evs : List Ev) → Decidable (Legal gh ds evs)
+  | _, [], _ => isTrue (by simp [Legal])
+  | _, _ :: _, [] => isTrue (by simp [Legal])
+  | gh, d :: ds, ev :: evs =>
+    have := instDecidableLegal (ghStep gh ev) ds evs
+    by simp only [Legal]; infer_instance
+
+theorem specWindow_mask (last : Option Nat) (b : Bool) (f : Option (RxView × Int)) (mp : Nat)
+    (h : b = true → heard (RejWin (some last) · mp) f) : specWindow last (maskRx b f) mp = specWindow last f mp := by
+  cases b with
+  | false => rfl
+  | true =>
+    cases f with
+    | none => rfl
+    | some x =>
+      have hr : _ := h rfl
+      simp only [heard] at hr
+      obtain ⟨v, snr⟩ := x
+      unfold RejWin at hr
+      simp only [maskRx, if_true, specWindow]
+      cases v with
+      | garbage => rfl
+      | joinAccept j => rfl
+      | data d =>
+        simp only at hr ⊢
+        have : ¬ d.len > mp + 5 := by omega
+        simp only [this, if_false, hr.2]
+
+theorem joinAcc_mask (b : Bool) (f : Option (RxView × Int)) (h : b = true → heard RejJoin f) :
+    joinAcc (maskRx b f) = joinAcc f := by
+  cases b with
+  | false => rfl
+  | true =>
+    cases f with
+    | none => rfl
+    | some x =>
+      have hr : _ := h rfl
+      simp only [heard] at hr
+      obtain ⟨v, snr⟩ := x
+      unfold RejJoin at hr
+      simp only [maskRx, if_true, joinAcc]
+      cases v with
+      | garbage => rfl
+      | data d => rfl
+      | joinAccept j => simp only at hr ⊢; simp [hr]
+
+theorem rxOk_mask (b : Bool) (f : Option (RxView × Int)) (h : rxOk f = true) : rxOk (maskRx b f) = true := by
+  cases b
+  · exact h
+  · rfl
+
+/-- **masking rejected frames does not change the step at all**: same state, same random stream, same output -/
+theorem step_mask_eq {σ} (g : Rng σ) (m : MacState) (rs : σ) (gh : Gh) (hr : GhRel m gh) (ev : Ev) (hv : evOk ev = true)
+    (b1 b2 : Bool) (hl : LegalDel gh (.mask b1 b2) ev) : step g (m, rs) (maskEv b1 b2 ev) = step g (m, rs) ev := by
+  cases ev with
+  | joinAbp da nwk app => rfl
+  | setAdr on => rfl
+  | setDr dr => rfl
+  | rxc v snr mp => rfl
+  | joinOtaa fault rx1 rx2 mp1 mp2 =>
+    simp only [LegalDel] at hl
+    simp only [maskEv, step]
+    cases hj : macJoinOtaa g m rs with
+    | error e => rfl
+    | ok r =>
+      obtain ⟨jo, m1, rs1⟩ := r
+      obtain ⟨dr, tx, region', pw, r1, r2, _, _, hm1, _, _⟩ := macJoinOtaa_ok g m rs rs1 jo m1 hj
+      have hst1 : m1.st = .otaa { devNonce := (draw g rs).1 % 65536 } := by rw [hm1]
+      simp only [bind, Except.bind]
+      cases fault with
+      | none =>
+        simp only []
+        rw [classACycle_otaa m1 _ hst1, classACycle_otaa m1 _ hst1]
+        simp only [specJoin, joinAcc_mask b1 rx1 hl.1, joinAcc_mask b2 rx2 hl.2]
+      | some k =>
+        simp only []
+        rw [faultedCycle_otaa m1 _ hst1, faultedCycle_otaa m1 _ hst1]
+        simp only [specJoinFaulted, specJoin, joinAcc_mask b1 rx1 hl.1, joinAcc_mask b2 rx2 hl.2]
+  | uplink data fport conf fault rx1 rx2 mp1 mp2 =>
+    simp only [LegalDel] at hl
+    simp only [evOk, Bool.and_eq_true] at hv
+    simp only [maskEv, step]
+    cases gh with
+    | none =>
+      rw [macSend_notJoined g m hr]
+      rfl
+    | some last =>
+      obtain ⟨s, hst, rfl, hlo⟩ := hr
+      cases hs : macSend g m data fport conf rs with
+      | error e => rfl
+      | ok r =>
+        obtain ⟨o, m1, rs1⟩ := r
+        obtain ⟨dr, tx, region', pw, r1, r2, _, _, _, hm1, _, rfl⟩ := macSend_joined g m s hst data fport conf rs rs1 o m1 hs
+        have hst1 : m1.st = .joined (sentSession s conf) := by rw [hm1]
+        have hl1 : LastOk (sentSession s conf).fcntDown := hlo
+        have e1 := specWindow_mask s.fcntDown b1 rx1 mp1 hl.1
+        have e2 := specWindow_mask s.fcntDown b2 rx2 mp2 hl.2
+        have e1' : specWindow (sentSession s conf).fcntDown (maskRx b1 rx1) mp1 = specWindow (sentSession s conf).fcntDown rx1 mp1 := e1
+        have e2' : specWindow (sentSession s conf).fcntDown (maskRx b2 rx2) mp2 = specWindow (sentSession s conf).fcntDown rx2 mp2 := e2
+        simp only [bind, Except.bind]
+        cases fault with
+        | none =>
+          simp only []
+          rw [classACycle_joined m1 _ hst1 hl1 _ _ mp1 mp2 (rxOk_mask b1 rx1 hv.1) (rxOk_mask b2 rx2 hv.2),
+            classACycle_joined m1 _ hst1 hl1 _ _ mp1 mp2 hv.1 hv.2]
+          simp only [specCycle, e1', e2']
+        | some k =>
+          simp only []
+          rw [faultedCycle_joined m1 _ hst1 hl1 k _ _ mp1 mp2 (rxOk_mask b1 rx1 hv.1) (rxOk_mask b2 rx2 hv.2),
+            faultedCycle_joined m1 _ hst1 hl1 k _ _ mp1 mp2 hv.1 hv.2]
+          simp only [specFaulted, specCycle, e1', e2']
+
+/-- a rejected Class C reception leaves state and random stream as they were -/
+theorem step_drop_eq {σ} (g : Rng σ) (m m' : MacState) (rs rs' : σ) (gh : Gh) (hr : GhRel m gh) (ev : Ev) (hv : evOk ev = true)
+    (hl : LegalDel gh .drop ev) (out : Out) (h : step g (m, rs) ev = .ok ((m', rs'), out)) : m' = m ∧ rs' = rs := by
+  cases ev with
+  | rxc v snr mp =>
+    simp only [LegalDel] at hl
+    simp only [evOk] at hv
+    cases gh with
+    | none =>
+      obtain ⟨rfl, rfl, _⟩ := step_rxc_notJoined g m m' rs rs' hr v snr mp out h
+      exact ⟨rfl, rfl⟩
+    | some last =>
+      obtain ⟨s, hst, rfl, hlo⟩ := hr
+      obtain ⟨rfl, rf, _, ht⟩ := step_rxc_joined g m m' rs rs' s hst hlo v snr mp hv out h
+      have : specRxc s.fcntDown v mp = none := by
+        unfold RejRxc at hl
+        unfold specRxc
+        cases v with
+        | garbage => rfl
+        | joinAccept j => rfl
+        | data d => simp only at hl ⊢; rw [hl]; rfl
+      simp only [this] at ht
+      exact ⟨ht.1, rfl⟩
+  | joinAbp da nwk app => exact hl.elim
+  | setAdr on => exact hl.elim
+  | setDr dr => exact hl.elim
+  | joinOtaa fault rx1 rx2 mp1 mp2 => exact hl.elim
+  | uplink data fport conf fault rx1 rx2 mp1 mp2 => exact hl.elim
+
+/-- **C07 over every history.**  Take any history `evs` and any script `ds` deleting frames the
+REFERENCE rejects at the point where they are heard — a Class C reception (`drop`), the frame heard
+in RX1 and/or RX2 of an uplink or of a join attempt (`mask`) — anywhere, any number of them.  The
+thinned history runs to the SAME final state and random stream and produces the SAME output at
+every remaining event (uplink bytes, counters, MAC answers, ACK bit, radio configurations,
+responses): the device is indistinguishable from the twin that never heard those frames.  (Applied
+to every prefix: the same state before every remaining event.) -/
+theorem history_rejected_invisible {σ} (g : Rng σ) (m : MacState) (rs : σ) (gh : Gh) (hr : GhRel m gh)
+    (evs : List Ev) (hv : ∀ ev ∈ evs, evOk ev = true) (ds : List Del) (hl : Legal gh ds evs)
+    (ms' : MacState × σ) (outs : List Out) (h : run g (m, rs) evs = .ok (ms', outs)) :
+    run g (m, rs) (thinEvs ds evs) = .ok (ms', thinOuts ds outs) := by
+  induction evs generalizing m rs gh ds outs with
+  | nil =>
+    have : outs = [] := by unfold run at h; cases Except.pure_eq_ok h; rfl
+    subst this
+    cases ds with
+    | nil => exact h
+    | cons d ds => cases d <;> exact h
+  | cons ev rest ih =>
+    cases ds with
+    | nil => exact h
+    | cons d ds =>
+      have hrun := h
+      unfold run at h
+      obtain ⟨⟨⟨m1, rs1⟩, o⟩, hstep, h⟩ := Except.bind_eq_ok h
+      obtain ⟨⟨ms2, os⟩, hrest, h⟩ := Except.bind_eq_ok h
+      cases Except.pure_eq_ok h
+      have hve := hv ev List.mem_cons_self
+      have hr1 := step_ghRel g m m1 rs rs1 ev o gh hr hve hstep
+      have hvr : ∀ e ∈ rest, evOk e = true := fun e he => hv e (List.mem_cons_of_mem _ he)
+      simp only [Legal] at hl
+      have ih' := ih m1 rs1 (ghStep gh ev) hr1 hvr ds hl.2 os hrest
+      cases d with
+      | keep =>
+        simp only [thinEvs, thinOuts, run, hstep, ih', bind, Except.bind, pure, Except.pure]
+      | mask b1 b2 =>
+        simp only [thinEvs, thinOuts, run, step_mask_eq g m rs gh hr ev hve b1 b2 hl.1, hstep, ih', bind, Except.bind, pure,
+          Except.pure]
+      | drop =>
+        obtain ⟨rfl, rfl⟩ := step_drop_eq g m m1 rs rs1 gh hr ev hve hl.1 o hstep
+        simp only [thinEvs, thinOuts]
+        exact ih'
+
+
+
+/-- a Class C reception returns in every well-formed state -/
+theorem step_rxc_returns {σ} (g : Rng σ) (m : MacState) (rs : σ) (v : RxView) (snr : Int) (mp : Nat) (hwf : MacWF m)
+    (hv : viewWF v = true) : ∃ m' out, step g (m, rs) (.rxc v snr mp) = .ok ((m', rs), out) := by
+  obtain ⟨rf, hrf, _⟩ := macRxcConfig_tot m hwf
+  obtain ⟨⟨o, m'⟩, hrx, _⟩ := macHandleRx_tot m v mp snr true hwf hv
+  refine ⟨m', .rxc rf o, ?_⟩
+  simp only [step, hrf, hrx, bind, Except.bind, pure, Except.pure]
+
+/-- **the converse: rejected frames can be INSERTED anywhere.**  If the thinned history runs, so
+does the history with the rejected frames present — to the same final state and random stream, with
+the same outputs at the events of the thinned history — from any well-formed state under valid
+events.  Together with `history_rejected_invisible`: the two runs of the pair exist together and
+agree. -/
+theorem history_rejected_insertable {σ} (g : Rng σ) (m : MacState) (rs : σ) (gh : Gh) (hr : GhRel m gh) (hwf : MacWF m)
+    (evs : List Ev) (hv : ∀ ev ∈ evs, evOk ev = true ∧ validEv m.region.id ev = true) (ds : List Del) (hl : Legal gh ds evs)
+    (ms' : MacState × σ) (outs' : List Out) (h : run g (m, rs) (thinEvs ds evs) = .ok (ms', outs')) :
+    ∃ outs, run g (m, rs) evs = .ok (ms', outs) ∧ thinOuts ds outs = outs' := by
+  induction evs generalizing m rs gh ds outs' with
+  | nil =>
+    have e : thinEvs ds [] = [] := by cases ds with | nil => rfl | cons d ds => cases d <;> rfl
+    rw [e] at h
+    refine ⟨outs', h, ?_⟩
+    have : outs' = [] := by unfold run at h; cases Except.pure_eq_ok h; rfl
+    subst this
+    cases ds with | nil => rfl | cons d ds => cases d <;> rfl
+  | cons ev rest ih =>
+    have hve := hv ev List.mem_cons_self
+    -- one kept (or masked) step, then the induction hypothesis
+    have keep : ∀ (ds' : List Del), Legal (ghStep gh ev) ds' rest →
+        ∀ outs', run g (m, rs) (ev :: thinEvs ds' rest) = .ok (ms', outs') →
+        ∃ o os, run g (m, rs) (ev :: rest) = .ok (ms', o :: os) ∧ outs' = o :: thinOuts ds' os := by
+      intro ds' hl' outs' h
+      unfold run at h
+      obtain ⟨⟨⟨m1, rs1⟩, o⟩, hstep, h⟩ := Except.bind_eq_ok h
+      obtain ⟨⟨ms2, os'⟩, hrest, h⟩ := Except.bind_eq_ok h
+      cases Except.pure_eq_ok h
+      have hk : Keeps m m1 := (step_safe g m rs ev hwf hve.2).elim hstep
+      have hr1 := step_ghRel g m m1 rs rs1 ev o gh hr hve.1 hstep
+      obtain ⟨os, hos, hth⟩ := ih m1 rs1 (ghStep gh ev) hr1 hk.1
+        (fun e he => by rw [hk.2.1]; exact hv e (List.mem_cons_of_mem _ he)) ds' hl' os' hrest
+      refine ⟨o, os, ?_, by rw [hth]⟩
+      simp only [run, hstep, hos, bind, Except.bind, pure, Except.pure]
+    cases ds with
+    | nil =>
+      obtain ⟨o, os, h1, h2⟩ := keep [] (by cases rest <;> trivial) outs' (by
+        have : thinEvs [] rest = rest := by cases rest <;> rfl
+        rw [this]; exact h)
+      refine ⟨o :: os, h1, ?_⟩
+      rw [h2]
+      have : thinOuts [] os = os := by cases os <;> rfl
+      rw [this]; rfl
+    | cons d ds =>
+      simp only [Legal] at hl
+      cases d with
+      | keep =>
+        obtain ⟨o, os, h1, h2⟩ := keep ds hl.2 outs' h
+        exact ⟨o :: os, h1, by rw [h2]; rfl⟩
+      | mask b1 b2 =>
+        simp only [thinEvs] at h
+        have h' : run g (m, rs) (ev :: thinEvs ds rest) = .ok (ms', outs') := by
+          unfold run at h ⊢
+          rw [step_mask_eq g m rs gh hr ev hve.1 b1 b2 hl.1] at h
+          exact h
+        obtain ⟨o, os, h1, h2⟩ := keep ds hl.2 outs' h'
+        exact ⟨o :: os, h1, by rw [h2]; rfl⟩
+      | drop =>
+        simp only [thinEvs] at h
+        cases ev with
+        | rxc v snr mp =>
+          have hvw : viewWF v = true := by
+            have := hve.2; simpa [validEv] using this
+          obtain ⟨m1, o, hstep⟩ := step_rxc_returns g m rs v snr mp hwf hvw
+          have e1 := (step_drop_eq g m m1 rs rs gh hr _ hve.1 hl.1 o hstep).1
+          rw [e1] at hstep
+          have hr1 := step_ghRel g m m rs rs _ o gh hr hve.1 hstep
+          obtain ⟨os, hos, hth⟩ := ih m rs _ hr1 hwf (fun e he => hv e (List.mem_cons_of_mem _ he)) ds hl.2 outs' h
+          refine ⟨o :: os, ?_, by simp only [thinOuts]; exact hth⟩
+          simp only [run, hstep, hos, bind, Except.bind, pure, Except.pure]
+        | joinAbp da nwk app => exact hl.1.elim
+        | setAdr on => exact hl.1.elim
+        | setDr dr => exact hl.1.elim
+        | joinOtaa fault rx1 rx2 mp1 mp2 => exact hl.1.elim
+        | uplink data fport conf fault rx1 rx2 mp1 mp2 => exact hl.1.elim
+
+/-! non-vacuity: a session; a replay in RX1, garbage between uplinks, a forged frame in RX1 and a
+JoinAccept in RX2 are deleted — same final state, same remaining outputs -/
+def lcg : Rng Nat := fun x => ((x * 1103515245 + 12345) / 65536, x * 1103515245 + 12345)
+
+def fr (w : Nat) (N : Option Nat) : RxView :=
+  .data { len := 14, confirmed := true, fcnt16 := w, micFcnt := N, fopts := [0x06], fport := some 1, payload := [w] }
+
+def badJa : RxView := .joinAccept { micOk := true, devAddr := 9, dlSettings := 0, rxDelay := 1, cfList := none, nwkKey := 5, appKey := 6 }
+
+def demoHistory : List Ev :=
+  [ .joinAbp 7 1 2,
+    .uplink [1] 1 false none (some (fr 5 (some 5), 0)) none 51 51,
+    .uplink [2] 1 false none (some (fr 5 (some 5), 0)) (some (fr 6 (some 6), 3)) 51 51,
+    .rxc .garbage 0 51,
+    .uplink [3] 1 true none (some (fr 9 none, 0)) (some (badJa, 0)) 51 51 ]
+
+def demoScript : List Del := [.keep, .keep, .mask true false, .drop, .mask true true]
+
+example : Legal none demoScript demoHistory := by decide
+example : ∀ ev ∈ demoHistory, evOk ev = true := by decide
+example : thinEvs demoScript demoHistory =
+  [ .joinAbp 7 1 2,
+    .uplink [1] 1 false none (some (fr 5 (some 5), 0)) none 51 51,
+    .uplink [2] 1 false none none (some (fr 6 (some 6), 3)) 51 51,
+    .uplink [3] 1 true none none none 51 51 ] := by rfl
+example : (run lcg (MacState.init (RegionState.init .EU868) 14 0, 1) demoHistory).toOption.map (fun r => r.2.length) = some 5 := by
+  decide +kernel
+
 end C07
 
 #print axioms C07.rejected_noop
 #print axioms C07.rejected_list_noop
 #print axioms C07.twin
+#print axioms C07.step_mask_eq
+#print axioms C07.step_drop_eq
+#print axioms C07.history_rejected_invisible
+#print axioms C07.history_rejected_insertable
